@@ -34,7 +34,7 @@ class Master:
     def table(self):
         return sorted([int(k), int(v)] for k, v in self.m.dhcp_dict.items())
 
-    def _inject(self, frm, typ, reserved, msg=b"", pipe=None):
+    def _inject(self, frm, typ, reserved, msg=b"", pipe=None, noise=None):
         self.fid = (self.fid + 1) & 0xFFFF
         buf = struct.pack("<HHHBB", frm, 0, self.fid, typ, reserved) + msg
         if pipe is None:
@@ -42,8 +42,19 @@ class Master:
         r = self.chip.inject(pipe, buf)
         if r[1] != "new":
             raise RuntimeError("injection failed %s" % (r,))
+        if noise is not None:
+            # an unrelated user frame (from node 0o3, another ID in its reserved byte) is already waiting behind the request:
+            # the master meets it while it waits for the NETWORK_ACK of a routed answer
+            self.fid = (self.fid + 1) & 0xFFFF
+            r = self.chip.inject(3, struct.pack("<HHHBB", 0o3, 0, self.fid, 0, noise) + b"zz")
+            if r[1] != "new":
+                raise RuntimeError("injection failed %s" % (r,))
         self.air.log.clear()
         self.m.update()
+        if noise is not None:
+            self.m.update()
+            while self.m.available():
+                self.m.read()
         out = []
         for p in self.air.log:
             d = p["data"]
@@ -53,10 +64,10 @@ class Master:
                             "noack": 1 - p["want_ack"]})
         return out
 
-    def request(self, nid, via):
+    def request(self, nid, via, noise=None):
         b = self.table()
-        rep = self._inject(via, 195, nid)
-        return dict(op="req", id=nid, via=via, before=b, after=self.table(), replies=rep)
+        rep = self._inject(via, 195, nid, noise=noise)
+        return dict(op="req", id=nid, via=via, before=b, after=self.table(), replies=rep, noise=-1 if noise is None else noise)
 
     def release(self, addr):
         b = self.table()
@@ -95,7 +106,7 @@ def replay_paths(args):
         ev = []
         for (name, a) in labels:
             if name == "Request":
-                ev.append(m.request(a[0], a[1]))
+                ev.append(m.request(a[0], a[1], noise=((a[0] + 100) if (a[1] != DEFAULT and a[1] >= 0o10 and (pi + len(ev)) % 2) else None)))
             elif name == "Release":
                 addr = dict(map(tuple, m.table())).get(a[0])
                 if addr is None:   # implementation has no lease where the model has one: observable at the request already
@@ -125,7 +136,8 @@ def random_history(args):
             nid = rng.choice(ids)
             conn = [a for a in tab.values() if a < 0o1000]   # connected nodes of level <= 3 may relay
             pool = [DEFAULT] * 3 + conn + [rng.choice([0o1, 0o2, 0o5, 0o14, 0o44, 0o444, 0o144, 0o344])]
-            ev.append(m.request(nid, rng.choice(pool)))
+            via = rng.choice(pool)
+            ev.append(m.request(nid, via, noise=(rng.choice([i for i in ids if i != nid]) if (via != DEFAULT and via >= 0o10 and rng.random() < 0.4) else None)))
         elif x < 0.9 and tab:
             ev.append(m.release(rng.choice(list(tab.values()))))
         elif x < 0.94:
